@@ -263,7 +263,15 @@ def generate(rng, mode=None):
     # also in otherwise clean programs, so that such a flaw is the only one the checker has to notice
     body, ints, bools, lists = base_program(rng, wrong=(mode == "typed" or rng.random() < 0.25))
     helpers = [h for h in HELPERS if rng.random() < 0.3] + list(base_program.helpers)
-    if mode == "nearmiss":
+    if mode == "nearmiss" and rng.random() < 0.25:
+        # ... or one helper that does not return what it declares (no return statement on some path, a bare return), and a call
+        cls = rng.choice(["SecretInteger", "PublicInteger", "Integer", "int"])
+        hbody = rng.choice(["    t = p\n", "    t = p\n    return\n", "    for i in range(2):\n        t = p\n", "    t = [p]\n", "    return None\n"])
+        helpers.append(f"def hm(p: {cls}) -> {cls}:\n{hbody}")
+        arg = {"int": "1", "Integer": "Integer(1)"}.get(cls) or next((x for x in ints if x.startswith("x")), "x0")
+        body.insert(len(body) - 1, f"nm = hm({arg})")
+        body.insert(len(body) - 1, "nu = [nm]")
+    elif mode == "nearmiss":
         # an otherwise clean program with exactly one statement that is only just ill-typed, followed by a use of what it bound
         pos = rng.randrange(1, len(body))
         stmt = rng.choice(NEAR_MISS)
